@@ -77,6 +77,21 @@ class Builder:
                 continue
             if now - last_used > 2 * 3600:
                 shutil.rmtree(p, ignore_errors=True)
+        # ... and never more than a dozen build directories of one kind, whatever their age: a session of
+        # sensitivity runs builds one per seeded change (a third session let the directory grow to 106 GB, at which
+        # point the sandbox could no longer be snapshotted). The least recently used go first; 20 minutes without use
+        # are the least a directory gets (nothing here runs a single batch for longer out of one build).
+        rest = []
+        for e in os.listdir(BUILD_ROOT):
+            p = os.path.join(BUILD_ROOT, e)
+            if e.startswith(tag + "-") and p != keep:
+                try:
+                    rest.append((max(os.path.getmtime(p), os.path.getmtime(os.path.join(p, ".ok")) if os.path.exists(os.path.join(p, ".ok")) else 0), p))
+                except OSError:
+                    pass
+        rest.sort()
+        while len(rest) > 12 and now - rest[0][0] > 20 * 60:
+            shutil.rmtree(rest.pop(0)[1], ignore_errors=True)
 
     def build(self, tag, inputs_hash, jobs, tolerate=None):
         """jobs: function(dir) -> list of (output name, command list) run in
